@@ -31,7 +31,9 @@ CHECKS = {
               'depth/alphabet in evidence.', '5/C01'),
     'C02': _s('BFS over histories; at every distinct quiescent state each '
               'probe template is submitted and the real cycle is compared '
-              'with an independent leaf-scan feasibility oracle.', '5/C02'),
+              'with an independent leaf-scan feasibility oracle (topology, '
+              'traits/partitions, affinity limits and lease/reboot-date '
+              'configurations).', '5/C02'),
     'C03': _s('BFS over histories incl. partition re-assignment, trait/label '
               'changes, freeze/down, leases under a virtual clock; every new '
               'placement is checked against the eligibility predicate and '
@@ -41,7 +43,10 @@ CHECKS = {
               'codes learned from server records only).', '5/C03'),
     'C04': _s('BFS over pressure histories on a 2x2 cell with limits on every '
               'level subset; per node true affinity counts are recomputed and '
-              'compared with limits and with the kept counters.', '5/C04'),
+              'compared with limits and with the kept counters; also servers '
+              'moving (with their instances) below another rack, and a '
+              'one-rack configuration in which a holder of a used-up limit '
+              'is evicted in vain.', '5/C04'),
     'C05': _s('BFS over histories of arrivals, evictions, failures, '
               'blacklisting and group count changes with up to 2 skipped '
               'cycles (incl. a group shrinking while holders sit on frozen '
@@ -51,7 +56,9 @@ CHECKS = {
     'C07': _s('BFS over pressure histories; the queue handed to placement is '
               'captured per cycle and every displaced healthy instance must '
               'have a gainer strictly ahead of it (templates include '
-              'priority-0 ties, leases, two allocations, reboot buckets).', '5/C07'),
+              'priority-0 ties, leases, two allocations, reboot buckets, '
+              'early lease renewals judged by the stated rule, holders of a '
+              'used-up limit evicted in vain).', '5/C07'),
     'C08': _s('BFS over down/up/frozen transitions and clock advances around '
               'the retention timeouts against a reference automaton on '
               'logical seconds; across master restarts the records published '
@@ -61,7 +68,8 @@ CHECKS = {
               'Master/ZkBackend/masterapi on an in-memory ZooKeeper, incl. '
               'restarts and skipped cycles; after every init_schedule/'
               'reschedule the whole /placement tree is compared with the '
-              'model (existence and content).', '5/C09', note=NOTE_B),
+              'model (existence and content), and so is the reference '
+              'placement kept in the data of the /placement node.', '5/C09', note=NOTE_B),
     'C10': _s('For every state of a World-B BFS and every enabled event the '
               'following publication step (reschedule or start-up of a new '
               'master) is cut after each of its k storage writes; no double '
@@ -128,10 +136,14 @@ CHECKS = {
               'at once or later from a FIFO, .ready flips, manager restart, '
               'node boot, manager killed after its k-th link operation, '
               'container exit/abort/oom, lagging tombstones, completion of '
-              'each cleanup link; link invariants after every handler call '
+              'each cleanup link in two steps (finish(); unlink) with any '
+              'event in between; link invariants after every handler call '
               'and crash point, reconciliation clauses after every '
               '_synchronize, and a quiescence clause (queue drained, manager '
-              'active: running links match the current cache generation). 2 instances x 2 generations, <=2 deviations.',
+              'active: running links match the current cache generation, '
+              'unfinished uncached containers are linked); finished '
+              'generations are remembered by the harness, not read from '
+              'disk. 2 instances x 2 generations, <=2 deviations.',
               '5/C13',
               note='configure.configure replaced by a stand-in (reads the '
                    'event file, real gen_uniqueid, creates apps/<unique>/data); '
@@ -153,7 +165,10 @@ CHECKS = {
               'call granularity, preemption bounds in evidence) of all '
               'interleavings of two processes on one RuleMgr/EndpointsMgr '
               'directory, each audited syscall by syscall and required to '
-              'match some serial order of the reference.', '5/C14',
+              'match some serial order of the reference; owners are container '
+              'unique names (two incarnations of one instance among them), '
+              'release alphabets include missing caller identities.',
+              '5/C14',
               note='netdev/iptables/subproc recorders; owner exists iff its '
                    'path exists; GC/unlink_all = sequences of atomic per-entry '
                    'steps; a refusal is judged only for callers that exist; '
@@ -191,7 +206,11 @@ CHECKS = {
               '_cleanup_network (+_cleanup_ephemeral_ports), finish again, on '
               'a host holding a foreign container\'s registrations; rules dir, '
               'endpoints dir and ip-sets must equal the pre-start state; plus '
-              'saturated BFS over start/finish of two containers.', '5/C16',
+              'saturated BFS over start/finish of two containers; plus '
+              'single-fault enumeration of the finish slice (every ipset/'
+              'conntrack call, rule/spec unlink and the network-service '
+              'delete fails once, finish repeated until it completes, host '
+              'must end as before the start).', '5/C16',
               note='only the network slices of run and finish are executed; '
                    'ipset CLI interpreted on Python sets; fake socket; no '
                    'firewall plugin installed',
@@ -205,7 +224,9 @@ CHECKS = {
               'ZooKeeper, every ZooKeeper call a scheduling point, plus '
               'environment deviations (session expiry with re-issue of live '
               'requests in every order, one external deletion, watch '
-              'delivery): stateless DFS with iterative preemption bounding, '
+              'delivery, and faults landing ON the call in flight: session '
+              'expiry raising to the caller, connection loss with the call '
+              'applied / not applied): stateless DFS with iterative preemption bounding, '
               'and the same DFS cut at canonical states for unbounded '
               'preemptions (bounds per configuration in the evidence); '
               'sequential sweeps of EndpointPresence and _unschedule.',
@@ -229,7 +250,10 @@ CHECKS = {
               'the expiry, batch sizes, existing snapshots; every run is '
               'killed before each ZooKeeper write in turn, and each write in '
               'turn is made to fail with ConnectionLoss (request lost / applied '
-              'but reply lost), then re-run; a second cleanup cycle with the '
+              'but reply lost), then re-run; every instance independently '
+              'scheduled x has an exit record; a size menu (45 KB to > 16 MiB '
+              'snapshots) for the real upload_batch -> download_batch round '
+              'trip; a second cleanup cycle with the '
               'same client follows every schedule change; '
               'snapshots are inflated and opened with sqlite3.', '5/C18',
               note='fake ZooKeeper; atomic ordered writes; one archiver '
